@@ -40,7 +40,7 @@ UNIVERSES = {
     "2x2x2x2": (["d", "a", "c", "b"], [[1, 2], [4, 3], ["u", "v"], [0.5, 0.25]]),
 }
 KINDS = ["num", "bool", "str", "tuple2", "list", "array", "dict", "dataset",
-         "iarray"]
+         "iarray", "npstr"]
 SUBGRIDS = [[], [("z", [7, 5])], [("z", [7, 5, 6]), ("w", ["m", "n"])]]
 
 
@@ -82,13 +82,18 @@ def cases(tier, seed):
                            "oneshot": j % 4 == 1,
                            # the last argument is keyword-only (with a
                            # default); argument names are inferred
-                           "kwonly": j % 4 == 3}
+                           "kwonly": j % 4 == 3,
+                           # dict cases that also set an argument the call
+                           # does not declare
+                           "partial": core.pick([u, od, t, "partial"], 3) == 0}
                     if t == 0 and len(names) >= 2 and u != "tupval":
                         # (tuples cannot be coordinate labels of a Dataset)
                         # the same request through a long-lived Runner that
                         # ran something else before (other argument order
                         # given for that run only)
-                        yield {"uni": u, "cases": od, "kind": "num",
+                        yield {"uni": u, "cases": od,
+                               "kind": ["num", "str", "npstr", "bool"][
+                                   core.pick([u, od, "rkind"], 4)],
                                "subgrid": sg, "api": "runner",
                                "shuffle": [False, True, 3][
                                    core.pick([u, od, "rs"], 3)],
@@ -195,6 +200,10 @@ def check_case(case):
                     fa = names[0] if case["keyrot"] == 2 else names
                 if kwonly:
                     fa = None
+                elif case.get("partial") and len(names) >= 2 and \
+                        not case.get("oneshot"):
+                    fa = names[:-1]
+                    tcases = [dict(zip(names, c)) for c in chosen]
                 got = xyz.case_runner(
                     f, fa, iter(tcases) if case.get("oneshot") else tcases,
                     combos=combos, **kw)
@@ -250,7 +259,10 @@ def check_case(case):
                                 "cases %r: slot %r holds %r" % (chosen, lab, v)))
                     break
             else:
-                if not cmp.leaf_missing(v):
+                if not cmp.leaf_missing(v) or (
+                        kind in ("str", "npstr", "bool") and v is not None):
+                    # (for string and boolean results the placeholder is
+                    # None: a nan would turn into the string 'nan' / True)
                     vio.append((key("not-missing"),
                                 "cases %r: unrequested slot %r holds %r"
                                 % (chosen, lab, v)))
